@@ -38,6 +38,7 @@ type scenario struct {
 	Atoms      []atomRef `json:"atoms"`
 	Wrap       string    `json:"wrap"`
 	ExpectFlow bool      `json:"expect_flow"`
+	Source2    int       `json:"source2,omitempty"` // id of the second source (5000+ID) when an atom calls one
 	SourceLine int       `json:"source_line"`
 	SinkLine   int       `json:"sink_line"`
 }
@@ -115,6 +116,7 @@ func randomScenarios(seed int64, n int, stdx bool) []scenario {
 			l = 2 + r.n(5) // 2..6
 		}
 		sc := scenario{ID: i + 1, ExpectFlow: true}
+		has2 := false
 		for len(sc.Atoms) < l {
 			if len(pool) == 0 {
 				refill()
@@ -123,6 +125,12 @@ func randomScenarios(seed int64, n int, stdx bool) []scenario {
 			pool = pool[1:]
 			if a.Kind == "stdx" && !stdx {
 				continue
+			}
+			if strings.Contains(a.Decl+a.Body, "$Q") {
+				if has2 {
+					continue
+				}
+				has2 = true
 			}
 			if !a.Flows && (!sc.ExpectFlow || r.n(3) != 0) {
 				// at most one negative atom per scenario, and only a third of the negative draws are used
@@ -272,7 +280,9 @@ func render(module string, seed int64, scs []scenario) (string, string, manifest
 		sc := &scs[si]
 		id := sc.ID
 		marker := fmt.Sprintf("#%04d#", id)
-		base := map[string]string{"$N": fmt.Sprint(id), "$S": fmt.Sprintf("sink%d", id), "$R": fmt.Sprintf("source%d", id), "$M": marker}
+		base := map[string]string{"$N": fmt.Sprint(id), "$S": fmt.Sprintf("sink%d", id), "$R": fmt.Sprintf("source%d", id), "$M": marker,
+			"$Q": fmt.Sprintf("%04d", 5000+id)}
+		sc.Source2 = 0
 		mk := func(prefix, x, y string, cc, dd int) map[string]string {
 			m := map[string]string{"$P": prefix, "$X": x, "$Y": y, "$C": fmt.Sprintf("c(%d)", cc), "$D": fmt.Sprintf("c(%d)", dd)}
 			for k, v := range base {
@@ -316,6 +326,15 @@ func render(module string, seed int64, scs []scenario) (string, string, manifest
 				return "", "", manifest{}, fmt.Errorf("unknown atom %s:%s", a.Kind, a.Variant)
 			}
 			a.Key, a.Flows = def.key(), def.Flows
+			if strings.Contains(def.Decl+def.Body, "$Q") {
+				if sc.Source2 != 0 {
+					return "", "", manifest{}, fmt.Errorf("scenario %d: more than one atom with a second source", id)
+				}
+				if id >= 5000 {
+					return "", "", manifest{}, fmt.Errorf("scenario id %d too large for a second source", id)
+				}
+				sc.Source2 = 5000 + id
+			}
 			m := mk(fmt.Sprintf("s%da%d", id, ai), fmt.Sprintf("x%d", ai), fmt.Sprintf("x%d", ai+1), a.C%nConds, a.D%nConds)
 			b.WriteString(subst(def.Decl, m))
 			body.WriteString(subst(def.Body, m) + "\n")
